@@ -2919,9 +2919,10 @@ client_tcp_read_packet_cb(struct bufferevent *bev, void *ctx)
 		reply_parse(server->base, msg, msg_len);
 		mm_free(msg);
 		msg = NULL;
-		if (server->connection == NULL) {
+		if (server->connection != conn) {
 			/* Some errors occurred in reply_parse, and TCP connection has been
-			 * close. Stop reading from it. */
+			 * closed (and possibly replaced by a new one while the request
+			 * was retransmitted). Stop reading from it. */
 			EVDNS_UNLOCK(server->base);
 			return;
 		}
